@@ -1,0 +1,14 @@
+//go:build verif
+
+package lambda
+
+// Contracts checked by /verif/gvc. Comment-only file (build tag verif).
+
+// NewExtension (C20): with manual flushing enabled, the flush coordinator the extension manager waits on is the one
+// installed in the server copy the manager runs -- the one the forwarder notifies after its delivery attempt --
+// and it is not nil.
+//@ func NewExtension
+//@   requires server != nil
+//@   callsite WithManualFlushEnabled requires fc != nil && fc == local(s).ForwarderFlushCoordinator
+//@   callsite NewManager requires caller(opts).EnableManualFlush ==> calls(WithManualFlushEnabled) == 1 && local(s).ForwarderFlushCoordinator != nil
+//@   modifies everything
